@@ -1,0 +1,50 @@
+//go:build verif
+
+package index
+
+import (
+	"context"
+
+	"github.com/ipld/go-storethehash/store/types"
+)
+
+// VerifGC runs one synchronous index GC cycle.
+func (idx *Index) VerifGC(ctx context.Context, scanFree bool) (int64, int, error) {
+	return idx.gc(ctx, scanFree)
+}
+
+// VerifBuckets returns a copy of the in-memory bucket table.
+func (idx *Index) VerifBuckets() []types.Position {
+	idx.bucketLk.RLock()
+	defer idx.bucketLk.RUnlock()
+	out := make([]types.Position, len(idx.buckets))
+	copy(out, idx.buckets)
+	return out
+}
+
+// VerifRecordList returns a copy of the current record list data of a bucket,
+// without the bucket prefix, taking unflushed data into account. It returns
+// nil if the bucket is empty.
+func (idx *Index) VerifRecordList(bucket BucketIndex) ([]byte, error) {
+	idx.bucketLk.RLock()
+	defer idx.bucketLk.RUnlock()
+	records, err := idx.getRecordsFromBucket(bucket)
+	if err != nil || records == nil {
+		return nil, err
+	}
+	out := make([]byte, len(records))
+	copy(out, records)
+	return out, nil
+}
+
+// VerifFileNum returns the number of the index file currently written to.
+func (idx *Index) VerifFileNum() uint32 {
+	idx.flushLock.Lock()
+	defer idx.flushLock.Unlock()
+	return idx.fileNum
+}
+
+// VerifConfig returns the bit size and the file size limit of the index.
+func (idx *Index) VerifConfig() (uint8, uint32) {
+	return idx.sizeBits, idx.maxFileSize
+}
